@@ -769,9 +769,16 @@ impl fmt::Display for Pattern {
             Pattern::Struct(struct_pattern) => format!("{struct_pattern}"),
             Pattern::Enum(enum_pattern) => format!("{enum_pattern}"),
             Pattern::Tuple(elems) => {
+                // The elements of a tuple are positional. Print them as they are,
+                // and not sorted and without duplicates as `PatStack` is printed.
                 let mut builder = String::new();
                 builder.push('(');
-                write!(builder, "{elems}")?;
+                for (i, elem) in elems.iter().enumerate() {
+                    if i > 0 {
+                        builder.push_str(", ");
+                    }
+                    write!(builder, "{elem}")?;
+                }
                 builder.push(')');
                 builder
             }
